@@ -35,12 +35,15 @@ pub enum DOp {
     BadQuery,
     /// a smart query to an address without contract, and a contract-info query for it
     QueryNoContract,
+    /// the first contract calls (reply_on Always) a contract built with ContractWrapper::new that has
+    /// no reply entry point and needs one: the caller's reply is handed the error text
+    CallPlain,
     /// a burst of smart / raw / contract-info queries whose address text is no address at all
     /// (whatever failing queries leave behind must not outlive them, in this App or any other)
     BadAddrQueries,
 }
 
-const ALL: [DOp; 15] = [DOp::Inst, DOp::Inst2, DOp::ExecCaught, DOp::Store, DOp::Dup1, DOp::Delegate, DOp::Delegate2, DOp::ExecOk, DOp::Send, DOp::Block, DOp::ExecFail, DOp::Mint, DOp::InstFail, DOp::StoreId7, DOp::Sudo];
+const ALL: [DOp; 16] = [DOp::Inst, DOp::Inst2, DOp::ExecCaught, DOp::CallPlain, DOp::Store, DOp::Dup1, DOp::Delegate, DOp::Delegate2, DOp::ExecOk, DOp::Send, DOp::Block, DOp::ExecFail, DOp::Mint, DOp::InstFail, DOp::StoreId7, DOp::Sudo];
 
 struct Inst {
     app: DApp,
@@ -48,6 +51,19 @@ struct Inst {
     u: String,
     v: String,
     denom: &'static str,
+    /// the contract without reply entry point (code 2), instantiated when the App is built
+    plain: String,
+}
+
+fn plain_exec(_deps: cosmwasm_std::DepsMut, _env: cosmwasm_std::Env, _info: cosmwasm_std::MessageInfo, _msg: cosmwasm_std::Empty) -> cosmwasm_std::StdResult<cosmwasm_std::Response> {
+    // a sub-message that fails and asks for a reply on error: the reply entry point is missing
+    Ok(cosmwasm_std::Response::new().add_submessage(cosmwasm_std::SubMsg::reply_on_error(BankMsg::Send { to_address: "nobody".into(), amount: vec![coin(1_000_000, "nope")] }, 5)))
+}
+fn plain_inst(_deps: cosmwasm_std::DepsMut, _env: cosmwasm_std::Env, _info: cosmwasm_std::MessageInfo, _msg: cosmwasm_std::Empty) -> cosmwasm_std::StdResult<cosmwasm_std::Response> {
+    Ok(cosmwasm_std::Response::new())
+}
+fn plain_query(_deps: cosmwasm_std::Deps, _env: cosmwasm_std::Env, _msg: cosmwasm_std::Empty) -> cosmwasm_std::StdResult<Binary> {
+    Ok(Binary::default())
 }
 
 fn fresh() -> Inst {
@@ -75,9 +91,11 @@ fn fresh_cfg(alt: bool) -> Inst {
             router.staking.add_validator(api, storage, &block, Validator::create("val".into(), Decimal::percent(10), Decimal::percent(90), Decimal::percent(1))).unwrap();
         }
     });
-    let mut i = Inst { app, contracts: vec![], u, v, denom: if alt { "ualt" } else { "TOKEN" } };
+    let mut i = Inst { app, contracts: vec![], u, v, denom: if alt { "ualt" } else { "TOKEN" }, plain: String::new() };
     // one code is part of every fresh instance, so that instantiations need no preceding store
     i.app.store_code(Box::new(Puppet { tag: 1 }));
+    let c2 = i.app.store_code(Box::new(cw_multi_test::ContractWrapper::new(plain_exec, plain_inst, plain_query)));
+    i.plain = i.app.instantiate_contract(c2, Addr::unchecked(&i.u), &cosmwasm_std::Empty {}, &[], "plain", None).map(|a| a.into_string()).unwrap_or_default();
     i
 }
 
@@ -105,7 +123,14 @@ fn prog(kind: DOp) -> Rc<Program> {
 
 /// Applies one operation and returns its transcript line.
 fn apply(i: &mut Inst, op: DOp) -> String {
-    set_script(prog(op));
+    if op == DOp::CallPlain {
+        let mut root = Node { writes: vec![WriteOp::Set(b"w-plain".to_vec(), b"1".to_vec())], attrs: vec![("k".into(), "plain".into())], ..Default::default() };
+        root.subs.push(Sub { id: 9, payload: b"pp".to_vec(), reply_on: Mode::Always, msg: Msg::Call { target: Target::Addr(i.plain.clone()), funds: vec![], node: 1 }, reply: Some(2) });
+        let reply = Node { writes: vec![WriteOp::Set(b"w-plain-reply".to_vec(), b"1".to_vec())], ..Default::default() };
+        set_script(Rc::new(Program { entry: Entry::WasmSudo { contract: String::new() }, root: 0, nodes: vec![root, Node::default(), reply] }));
+    } else {
+        set_script(prog(op));
+    }
     let first = i.contracts.first().cloned();
     let u = Addr::unchecked(&i.u);
     let resp = |r: cw_multi_test::error::AnyResult<cw_multi_test::AppResponse>| match r {
@@ -130,7 +155,7 @@ fn apply(i: &mut Inst, op: DOp) -> String {
             }
             Err(_) => "Err".into(),
         },
-        DOp::ExecOk | DOp::ExecFail | DOp::ExecCaught => match &first {
+        DOp::ExecOk | DOp::ExecFail | DOp::ExecCaught | DOp::CallPlain => match &first {
             Some(c) => resp(i.app.execute(u.clone(), WasmMsg::Execute { contract_addr: c.clone(), msg: cosmwasm_std::to_json_binary(&NodeMsg { n: 0 }).unwrap(), funds: vec![coin(1, "x")] }.into())),
             None => "no-contract".into(),
         },
